@@ -132,6 +132,7 @@ def run_live(shard, rec, B):
             compose_history(rec, B, rng, N, named)
             wider_register(rec, B, rng, N, named)
             moved_gate(rec, B, rng, N)
+            placed_gate(rec, B, rng, N, cls)
             refusals(rec, B, rng, N, named)
         circ = CC.new_circuit(B, cls, N)
         prog, inserted = [], []
@@ -372,6 +373,37 @@ def moved_gate(rec, B, rng, N):
             eg, ep = O.map_image_list(mg, mp, item[2], item[3])
             rec.check("live.move", CC.same(got, (eg, ep, item[4])), dict(desc, kind=item[0]), True,
                       expected=CC.show_rows((eg, ep, item[4])), observed=CC.show_rows(got))
+
+
+def placed_gate(rec, B, rng, N, cls):
+    """gates are built for one set of qubits and placed on another of the same width (gate.qubits is a plain public attribute)
+    BEFORE the circuit takes them: layer packing, and the action with and without compiling, follow where the gates are now."""
+    prog = PR.rand_program(rng, N, int(rng.integers(2, 7)), kinds=["setgen", "fmap", "bmap"], named=False)
+    circ = CC.new_circuit(B, cls, N)
+    moved = []
+    for s_ in prog:
+        w = len(s_["qubits"])
+        first = [int(q) for q in rng.choice(N, size=w, replace=False)]
+        g = PR.make_gate(B, dict(s_, qubits=first), N)
+        g.qubits = tuple(int(q) for q in s_["qubits"])
+        moved.append([first, list(s_["qubits"])])
+        ok, _ = rec.attempt("placed.take", [N, cls, moved], lambda: circ.take(g))
+        if not ok:
+            return
+    gs, ps = gen.rand_list(rng, 6, N), rng.integers(0, 4, 6)
+    eg, ep = _act(B, prog, N, gs, ps)
+    desc = {"N": N, "cls": cls, "program": [PR.describe(x) for x in prog], "built_on -> placed_on": moved}
+    for comp in ("none", "compiled"):
+        if comp == "compiled":
+            ok, _ = rec.attempt("placed.compile", desc, (lambda: circ.compile(N)) if cls == "CliffordCircuit" else (lambda: circ.compile()))
+            if not ok:
+                return
+        obj = B.PauliList(gs.copy(), ps.copy())
+        ok, _ = rec.attempt("placed." + comp, desc, lambda: circ.forward(obj))
+        if ok:
+            lg, lp = B.gsps(obj)
+            rec.check("placed." + comp, np.array_equal(lg, eg) and np.array_equal(lp, ep % 4), desc, True,
+                      expected=[O.show(a, b) for a, b in zip(eg, ep)], observed=[O.show(a, b) for a, b in zip(lg, lp)])
 
 
 def refusals(rec, B, rng, N, named):
